@@ -26,7 +26,6 @@ import contextlib, copy, pickle, random, threading, time
 import torch
 import torch.distributed as dist
 
-__all__ = ["World", "Group", "CollectiveMismatch", "TransportTimeout", "Outcome"]
 
 
 class CollectiveMismatch(RuntimeError):
@@ -414,3 +413,148 @@ def fmt_trace(tr) -> str:
         else:
             out.append(kind)
     return ",".join(out)
+
+
+# =============================================================================== canonical text of values
+# Shared by harness/props/c15.py, c02.py, the gloo children and the Lean model (TE/Driver/Sync.lean):
+#   tensor      <dtype>@<d0xd1…>@<q,q,…>           state  T<tensor> | L(<t>;…) | D(<key>~<t>;…) | I<int> | F<q>
+#   collection  <metric>.<state>!<state>&…  ('-' when empty)
+from fractions import Fraction as _Fr
+
+DTYPES = {"float16": torch.float16, "bfloat16": torch.bfloat16, "float32": torch.float32, "float64": torch.float64,
+          "uint8": torch.uint8, "int8": torch.int8, "int16": torch.int16, "int32": torch.int32, "int64": torch.int64,
+          "bool": torch.bool}
+
+
+def _fq(x) -> str:
+    f = _Fr(x)
+    return str(f.numerator) if f.denominator == 1 else f"{f.numerator}/{f.denominator}"
+
+
+def enc_t(t: torch.Tensor) -> str:
+    flat = t.detach().reshape(-1)
+    if t.dtype == torch.bool:
+        vals = [int(v) for v in flat.tolist()]
+    elif t.dtype.is_floating_point:
+        vals = flat.to(torch.float64).tolist()
+    else:
+        vals = flat.tolist()
+    return f"{_dt(t.dtype)}@{'x'.join(str(d) for d in t.shape)}@{','.join(_fq(v) for v in vals)}"
+
+
+def dec_t(s: str) -> torch.Tensor:
+    dt, sh, da = s.split("@")
+    shape = [int(d) for d in sh.split("x")] if sh else []
+    vals = [float(_Fr(x)) for x in da.split(",")] if da else []
+    return torch.tensor(vals, dtype=torch.float64).to(DTYPES[dt]).reshape(shape)
+
+
+def enc_state(v) -> str:
+    if isinstance(v, torch.Tensor):
+        return "T" + enc_t(v)
+    if isinstance(v, list):
+        return "L(" + ";".join(enc_t(x) for x in v) + ")"
+    if isinstance(v, dict):
+        return "D(" + ";".join(f"{k}~{enc_t(v[k])}" for k in v) + ")"
+    if isinstance(v, bool):
+        raise TypeError("bool state")
+    if isinstance(v, int):
+        return f"I{v}"
+    if isinstance(v, float):
+        return "F" + _fq(v)
+    return f"?{type(v).__name__}"
+
+
+def dec_state(s: str):
+    if s[0] == "T":
+        return dec_t(s[1:])
+    if s[0] == "L":
+        body = s[2:-1]
+        return [dec_t(x) for x in body.split(";")] if body else []
+    if s[0] == "D":
+        body = s[2:-1]
+        return {e.split("~")[0]: dec_t(e.split("~")[1]) for e in body.split(";")} if body else {}
+    if s[0] == "I":
+        return int(s[1:])
+    if s[0] == "F":
+        return float(_Fr(s[1:]))
+    raise ValueError(s)
+
+
+def enc_collection(c: dict, sort=False) -> str:
+    """{metric: {state: value}} -> text; `sort`: canonical order (sorted names, dict states sorted by key)."""
+    out = []
+    for m in (sorted(c) if sort else c):
+        for s in (sorted(c[m]) if sort else c[m]):
+            v = c[m][s]
+            if sort and isinstance(v, dict):
+                v = {k: v[k] for k in sorted(v)}
+            out.append(f"{m}.{s}!{enc_state(v)}")
+    return "&".join(out) if out else "-"
+
+
+def dec_collection(s: str) -> dict:
+    out: dict = {}
+    if s == "-":
+        return out
+    for e in s.split("&"):
+        name, st = e.split("!")
+        m, sn = name.split(".")
+        out.setdefault(m, {})[sn] = dec_state(st)
+    return out
+
+
+def render_send(v) -> str:
+    """send_tensors result in the model's syntax."""
+    if v is None:
+        return "none"
+    return "[" + ";".join(enc_t(t) for t in v) + "]"
+
+
+def render_sync(v) -> str:
+    """sync_states result in the model's syntax (rows in traversal order; dict states in stored order)."""
+    if v is None:
+        return "none"
+    return "[" + "|".join(enc_collection(row, sort=False) if _is_sorted(row) else enc_collection(_sorted_rows(row)) for row in v) + "]"
+
+
+def _sorted_rows(row: dict) -> dict:
+    return {m: {s: row[m][s] for s in sorted(row[m])} for m in sorted(row)}
+
+
+def _is_sorted(row: dict) -> bool:
+    return list(row) == sorted(row) and all(list(row[m]) == sorted(row[m]) for m in row)
+
+
+def render_compute(v) -> str:
+    """a compute() result / state_dict / dict of those, as text that is equal iff the values are bitwise equal."""
+    if isinstance(v, torch.Tensor):
+        return enc_t(v)
+    if isinstance(v, dict):
+        return "{" + ",".join(f"{k}:{render_compute(v[k])}" for k in v) + "}"
+    if isinstance(v, (list, tuple)):
+        return "(" + ",".join(render_compute(x) for x in v) + ")"
+    if isinstance(v, float):
+        return "F" + (_fq(v) if v == v and abs(v) != float("inf") else repr(v))
+    if isinstance(v, int):
+        return f"I{v}"
+    if hasattr(v, "state_dict"):
+        return "M" + render_compute(v.state_dict())
+    return repr(v)
+
+
+def world_status(outs) -> str:
+    """one word for what happened to a simulated world: ok | crashed-<Exception> | <mismatch kind> | timeout."""
+    errs = [o.value for o in outs if o is not None and not o.ok]
+    if not errs:
+        return "ok"
+    for e in errs:
+        if not isinstance(e, (CollectiveMismatch, TransportTimeout)):
+            return "crashed-" + type(e).__name__
+    for e in errs:
+        if isinstance(e, CollectiveMismatch) and e.kind != "peer-finished":
+            return e.kind
+    for e in errs:
+        if isinstance(e, CollectiveMismatch):
+            return e.kind
+    return "timeout"
